@@ -389,4 +389,8 @@ def run(ctx):
     ctx.guard("blockmix-order", "scrypt", lambda: check_block_mix(ctx, P))
     ctx.guard("pbkdf2", "pbkdf2", lambda: check_pbkdf2(ctx, P))
     ctx.guard("scrypt", "scrypt", lambda: check_scrypt(ctx, P))
-    ctx.not_decided += ["ROMix / BlockMix data flow and all derived key values", "HMAC itself (C08)"]
+    # the PRF of all three KDFs: HMAC's key preparation and inner / outer order (shared rule instances with C08)
+    from . import objects
+    ctx.guard("hmac-keys", "expand/derive/create", lambda: objects.check_hmac_keys(ctx, P))
+    ctx.guard("hmac", "Mac", lambda: objects.check_hmac_mac(ctx, P))
+    ctx.not_decided += ["ROMix / BlockMix data flow and all derived key values", "the digests under HMAC (C01)"]
